@@ -526,7 +526,9 @@ func (m *Manager) acquireTasks(envId uid.ID, taskDescriptors Descriptors) (err e
 
 			deployedTasks = make(DeploymentMap)
 
-			outcomeCh := make(chan ResourceOffersOutcome)
+			// buffered: resourceOffers hands its verdict over with a non-blocking send, possibly
+			// before we get to receive below, and a dropped verdict would block us for ever
+			outcomeCh := make(chan ResourceOffersOutcome, 1)
 			m.tasksToDeploy <- &ResourceOffersDeploymentRequest{
 				tasksToDeploy: tasksToRun,
 				envId:         envId,
